@@ -17,4 +17,8 @@ TEXT = {
         "text": "crash_old_or_new, kill_old_or_new, durable_after_return, fault_reports, rerun_after_crash/fault and visible_le_durable are Lean theorems for every old/new content, every split of the writes, every prefix of system calls, every fault plan and every outcome of a POSIX-style crash adversary (any subset of un-synced directory operations, arbitrary un-synced data), about the program Expected.atomicWriteSteps; that program is regenerated from dbkit/atomic.go on every run (call order, error edges, defers, O_EXCL) and compared in Lean; negative theorems show that dropping either fsync or reordering the rename breaks the property. The real code is validated by killing a real writer process at every syscall of a commit (strace injection), by loading every model-enumerated power-loss image with the real FileStore.Load, and by failing/panicking Store calls.",
         "note": "Partial w.r.t. real kernels/file systems/disks (represented by the stated crash model). Corner recorded: a failure of the directory open/fsync AFTER the rename returns an error although the file already shows the new state.",
     },
+    "C18": {
+        "text": "upload_chunks (chunks 0..n-1, all but the last full, exact length and chunk size), upload_partition_independent, download_simulates (a simulation between DownloadStream and an in-memory reader for every read/skip/seek script incl. invalid whence), upload_then_download, abort/delete_leaves_nothing, resume_equivalent (suspend/resume at arbitrary points) and write_never_diverges are Lean theorems for all contents, chunk sizes 0 < c <= buffer, partitions and scripts; the model of bucket.go is tied by a differential stream through the real Bucket over an in-memory engine (contents up to and around the 16 MiB buffer, tracked and untracked lifecycles) with independent monitors (bytes.Reader replay, chunk numbering, leftovers).",
+        "note": "Trusted: Lean kernel; the engine below the bucket; no extractor fact yet for bucket.go (tie is correspondence only).",
+    },
 }
